@@ -822,6 +822,10 @@ def run_resave(key):
                 m.load(src, postfix=pf_src)
             res["n"] += 3
             res["trans"] += 1
+            try:
+                m.save(dst, postfix=f"first_{via}_{edit}")  # a first save of this same object (seed C17i: stacked arrays cached on the instance)
+            except Exception:
+                pass
             newf = np.full(n, 1.0 / n) + 0.001 * np.arange(n)
             newo = np.arange(9.0 * n).reshape(n, 3, 3) / (9.0 * n) - 0.25
             if edit == "replace_last":
